@@ -18,7 +18,7 @@ CHECKS = {
                 "Lipschitz bound; for every accuracy-stopped run whose reliability precondition holds (evaluated "
                 "from the observed history) the stated bound on best - f* is asserted. Exploration, not proof: the "
                 "theorem is quantified over all Lipschitz functions and the check samples them; the bound has a "
-                "factor 2-3 of slack, so it detects damaged searches, not marginally weakened ones.",
+                "factor 2-3 of slack, so it detects damaged searches, not marginally weakened ones. Runs include 1-D thin boxes, eps down to 1e-6 and a first Solve with a small budget that is raised before the deciding Solve.",
                 note="Trusted: closed-form minima / Lipschitz bounds of the generated families (vlib/objectives.py), "
                 "the independent AGP model (vlib/agp.py), history taken from listener items. Precondition evaluated "
                 "with M at the last decision, conclusion with final M (subset of the stated hypothesis).",
@@ -27,7 +27,7 @@ CHECKS = {
                 "of every generated run is replayed in an independent re-statement of the AGP decision rule",
                 text="Each generated run (all objective families incl. constant/step/quantised ones, N=1..5, Solve "
                 "or DoGlobalIteration batches) is replayed trial by trial in an independent model: arg-max interval "
-                "(ties free), new-point formula, strict interior, no repeated coordinate, first trial at 0.5.",
+                "(ties free), new-point formula, strict interior, no repeated coordinate, first trial at 0.5. Runs may continue 50-500 trials past a small itersLimit, with an optional Solve and an optional DoLocalRefinement in between; user problems may return a new value holder or numpy scalars.",
                 note="Trusted: vlib/agp.py (60-line model), Hypothesis generators; tolerances 1e-9 relative on "
                 "characteristics and 1e-12+1e-9*len on points.", ref="3/C02"),
     "C03": dict(cat="exploration", tech="property-based testing (Hypothesis): history-based oracle for evaluation "
@@ -35,7 +35,7 @@ CHECKS = {
                 "(itersLimit 1/2, eps>=1, eps equal to a reachable Hoelder length)",
                 text="One Solve() per generated (objective, box, r, eps, itersLimit); the number of evaluations, the "
                 "reported counts, the budget, the exact stopping index and the reported accuracy are recomputed from "
-                "the observed history. Termination is decided by an evaluation-count guard.",
+                "the observed history. Termination is decided by an evaluation-count guard. A quarter of the cases spend budget through DoGlobalIteration first and call Solve repeatedly; a sixth raise itersLimit after a first Solve.",
                 note="Trusted: independent model for interval lengths; strictness of '<' read from the solver's own "
                 "reported accuracy; infinite loops without evaluations only surface as a watchdog (exit 2).",
                 ref="3/C03"),
@@ -43,7 +43,7 @@ CHECKS = {
                 "observed inside listener callbacks, after every call and on every returned Solution",
                 text="Mixed DoGlobalIteration/Solve call sequences on generated objectives (incl. many equal values, "
                 "refinement on/off); at every observation point the reported best is matched against the Calculate "
-                "log prefix of that moment (bit-equal point, logged and re-evaluated value, nothing smaller).",
+                "log prefix of that moment (bit-equal point, logged and re-evaluated value, nothing smaller). Runs with and without a listener, with the first Solution object kept and re-read after every later call, and with a second solver stepped in between.",
                 note="Trusted: the logging Problem wrapper; observations inside callbacks are snapshots verified after "
                 "the call returns.", ref="3/C04"),
     "C05": dict(cat="exploration", tech="property-based testing (Hypothesis): box-containment invariant over the "
@@ -56,7 +56,7 @@ CHECKS = {
                 "information is traversed and compared with the evaluation log, a fresh Evolvent and the listener's "
                 "items (model = multiset of evaluations)",
                 text="Order, links, count, interval lengths, stored points (bit-equal to a fresh evolvent image) and "
-                "stored values are checked after every DoGlobalIteration/Solve call of generated runs.",
+                "stored values are checked after every DoGlobalIteration/Solve call of generated runs. Cases include SolverParameters.startPoint, runs pushed to the float resolution of the curve coordinate, and problems that return a new value holder.",
                 note="refineSolution=False; length tolerance 1e-12 relative.", ref="3/C06"),
     "C07": dict(cat="exploration", tech="exhaustive enumeration of all subintervals up to N*m<=20 (quick) / 24 "
                 "(thorough) with an induction step over levels, plus Hypothesis-generated deep cases (exact dyadic x, "
@@ -64,7 +64,7 @@ CHECKS = {
                 text="Bijection onto the grid is enumerated directly at the base levels and carried to deeper levels "
                 "by checking, for EVERY subinterval of a level, that its 2^N children are distinct centres inside "
                 "its cell; deep levels (up to N*m=50) are sampled with generators aimed at the ends, the tail and "
-                "sub-cube boundaries. Exhaustive in the stated scope, sampled beyond it.",
+                "sub-cube boundaries. Exhaustive in the stated scope, sampled beyond it. The box is configured through the constructor, SetBounds (new or used object), aliased or integer-typed bound arrays, or reached through a query history.",
                 note="Trusted: exact dyadic construction of x (n/2^53), Fraction arithmetic for indices, unit-cube "
                 "centres are exact doubles; non-unit boxes within a stated rounding allowance.", ref="3/C07"),
     "C08": dict(cat="exploration", tech="exhaustive enumeration of all consecutive subinterval pairs up to N*m<=20 "
@@ -72,14 +72,14 @@ CHECKS = {
                 "Hoelder inequality",
                 text="Face adjacency of consecutive cells is enumerated completely in the stated scope and sampled up "
                 "to N*m=50; nesting reuses the C07 child check; the Hoelder bound is checked on generated pairs at "
-                "every scale 2^-k incl. pairs straddling sub-cube boundaries, on arbitrary boxes.",
+                "every scale 2^-k incl. pairs straddling sub-cube boundaries, on arbitrary boxes. Same configuration/history variants as C07.",
                 note="Trusted: exact dyadic x, unit-cube cell arithmetic; inequality with factor 1+1e-12 plus a few ulp "
                 "of the bounds.", ref="3/C08"),
     "C09": dict(cat="exploration", tech="round-trip property-based testing (Hypothesis) in both directions plus "
                 "exhaustive x->y->x round trip for N*m<=18 (quick) / 22 (thorough)",
                 text="inverse(image(x)) must equal floor(x*T)/T exactly; image(inverse(y)) must lie within half a cell "
                 "of y for y uniform, on cell boundaries, faces, corners, centres, as array / list / integer list; "
-                "GetPreimages == GetInverseImage; N=1 affine maps.",
+                "GetPreimages == GetInverseImage; N=1 affine maps. Same configuration/history variants as C07.",
                 note="Trusted: exact index arithmetic (Fraction); forward round trip on non-unit boxes only where the "
                 "affine map's rounding allowance is < 0.01 cell.", ref="3/C09"),
     "C10": dict(cat="exploration", tech="generated-point counter-example search per benchmark instance (grid + "
@@ -88,14 +88,14 @@ CHECKS = {
                 text="Every family member is visited (thorough) or sampled (quick); the declared optimum is evaluated "
                 "through Calculate, a lower point is searched for, and descent from the declared point must stay "
                 "within 0.5% of the side. 1-D families are certified up to the Lipschitz resolution; in 2-D and above "
-                "the global minimum is searched, not certified.",
+                "the global minimum is searched, not certified. Each instance is built after its family predecessor and after one earlier construction of itself (construction history).",
                 note="Trusted: vectorised re-implementations are cross-checked against the real Calculate in the same "
                 "run; scipy local optimisers only polish candidates.", ref="3/C10"),
     "C11": dict(cat="exploration", tech="differential property-based testing: real solver against real solver under "
                 "all compositions (n<=10 exhaustive) and generated compositions of the iteration count",
                 text="For every batching of the iterations into DoGlobalIteration calls followed by Solve (all 2^(n-1) "
                 "compositions for n<=10, generated ones beyond), the trial sequence must be the prefix of the "
-                "single-batch reference bit for bit, the repeated run identical, and a second Solve adds nothing.",
+                "single-batch reference bit for bit, the repeated run identical, and a second Solve adds nothing. A third of the cases also repeat a default-parameter run around the creation of another default-parameter solver (N up to 7).",
                 note="Oracle is the implementation itself under a different call pattern (differential); hidden "
                 "randomness shows as run-to-run difference within a process.", ref="3/C11"),
     "C12": dict(cat="exploration", tech="stateful property-based testing (Hypothesis RuleBasedStateMachine) over "
@@ -103,7 +103,7 @@ CHECKS = {
                 "oracle = each solver run alone (A-B-A)",
                 text="Rules create, step, solve and read up to four solvers with different problems; after every rule "
                 "every solver's log must be a prefix of its solo log, its search information must pass the C06 "
-                "invariants and every Solution ever returned must still report its own solver's optimum.",
+                "invariants and every Solution ever returned must still report its own solver's optimum. Problems have N=1..7; solvers may share one SolverParameters object or the default; refining Solve calls are compared in full with the solo run.",
                 note="Solo runs are computed in the same process before and after the interleaved phase.",
                 ref="3/C12"),
     "C13": dict(cat="exploration", tech="property-based testing (Hypothesis) over listener classes generated by "
@@ -111,7 +111,7 @@ CHECKS = {
                 "without listeners; parsing of the console report",
                 text="Every subset of overridden callbacks, combinations with the shipped console and painting "
                 "listeners (Agg backend, temporary directory), every batching: notification count/order/content via "
-                "a shared event counter, and equality of trial sequence and result with the listener-free run.",
+                "a shared event counter, and equality of trial sequence and result with the listener-free run. Includes refineSolution=True, value-equal listeners and objective faults with listeners attached (weak oracle: no phantom trial, nothing escapes Solve).",
                 note="Painters' extra objective probes are recognised by event number and excluded from the trial log; "
                 "solvingTime is excluded from result comparison.", ref="3/C13"),
     "C14": dict(cat="exploration", tech="property-based testing over all 400 GKLS functions with generated points "
@@ -119,20 +119,20 @@ CHECKS = {
                 "and a golden reference recorded from the pinned commit",
                 text="Structure (10 minimisers, disjoint balls, paraboloid outside, prescribed values, global minimum "
                 "at class distance/radius/value), continuity across ball boundaries with a derived slope bound, and "
-                "reproducibility against golden/gkls_reference.json and across repeated constructions.",
+                "reproducibility against golden/gkls_reference.json and across repeated constructions. Also: an object regenerated with function.SetFunctionNumber equals a new one; hard-class namesakes built in the same process do not interfere.",
                 note="Golden file shows the generator did not change since the pinned commit; agreement with the "
                 "published C generator is not decidable offline.", ref="3/C14"),
     "C15": dict(cat="exploration", tech="stateful property-based testing (Hypothesis RuleBasedStateMachine): "
                 "construct/evaluate sequences over all families against a first-value-seen model",
                 text="Any sequence of constructions and evaluations (siblings of the same member, other families in "
                 "between, repeated points) must return bit-identical values per (member, function, point), leave the "
-                "point unchanged and return the supplied holder.", note="Model = dictionary of first values seen.",
+                "point unchanged and return the supplied holder.", note="Model = dictionary of first values seen. Evaluations also go through argument containers re-used in place; further sibling instances are added by a dedicated rule.",
                 ref="3/C15"),
     "C16": dict(cat="fault_enumeration", tech="fault injection enumerated over EVERY evaluation index k of each "
-                "generated run and seven exception types, oracle = prefix of the clean run + C06 invariants",
+                "generated run and nine exception types in three construction forms, oracle = prefix of the clean run + C06 invariants",
                 text="For each generated problem the clean run is recorded, then the objective is armed to raise at "
                 "every k in 2..n for each exception type (incl. KeyboardInterrupt, SystemExit, GeneratorExit); "
-                "Solve must return and reflect exactly the k-1 completed trials.",
+                "Solve must return and reflect exactly the k-1 completed trials. Nine exception types, each built with a message, without arguments or with several; the listener must have been told exactly the completed trials.",
                 note="All fault positions of the sampled runs are enumerated; the runs themselves are sampled.",
                 ref="3/C16"),
     "C17": dict(cat="exploration", tech="stateful property-based testing (Hypothesis RuleBasedStateMachine) on one "
@@ -145,7 +145,7 @@ CHECKS = {
     "C18": dict(cat="exploration", tech="enumeration of every constructor argument of every family (metadata) and of "
                 "all 2x1000 table rows against a 1e6-point grid + polishing of every local extremum",
                 text="Metadata well-formedness for every member; Hill/Shekel minimum, maximum and Lipschitz tables "
-                "recomputed from the functions (values 1e-4, locations 1e-4 of the range, constants 0.1%).",
+                "recomputed from the functions (values 1e-4, locations 1e-4 of the range, constants 0.1%). Also: overwriting one instance's metadata arrays in place must not change siblings; the real function is evaluated at the published extremiser locations and at both ends of the box.",
                 note="Vectorised formulas cross-checked against the real Calculate in the same run.", ref="3/C18"),
     "C19": dict(cat="exploration", tech="model-based stateful testing (Hypothesis RuleBasedStateMachine) of SearchData, "
                 "SearchDataDualQueue and CharacteristicsQueue against an ordered-set / priority-queue model, plus all "
@@ -153,11 +153,11 @@ CHECKS = {
                 text="Insertions with/without hint, find, best-interval requests with stale entries, clears, refills "
                 "and traversals are compared with a sorted-list and a multiset-of-entries model; bounded queues against "
                 "the top-maxlen rule.", note="Preconditions of method.py's callers respected (distinct interior "
-                "coordinates, true right-neighbour hints, no NaN priorities).", ref="3/C19"),
+                "coordinates, true right-neighbour hints, no NaN priorities). Characteristics are also changed by tiny relative steps (1e-16..1e-4).", ref="3/C19"),
     "C20": dict(cat="exploration", tech="property-based testing (Hypothesis) with a grid-membership oracle and a "
                 "metamorphic relation on the density parameter",
                 text="Every evaluation point of generated runs (density 2..12, N=2..5, arbitrary boxes) must be a "
-                "cell centre of the configured density; a centre of one density is never a centre of another.",
+                "cell centre of the configured density; a centre of one density is never a centre of another. eps is drawn above and below the cell size.",
                 note="Tolerance 1e-6 cell.", ref="3/C20"),
 }
 
@@ -203,7 +203,7 @@ def main():
         },
         "engines": [{"name": "vlib", "path": "vlib/", "serves_properties": [c["property_id"] for c in checks],
                      "kind_free_text": "Hypothesis 6.168 property-based / stateful testing + exhaustive "
-                     "enumeration of small finite scopes, sharded over 16 processes; oracles are reference "
+                     "enumeration of small finite scopes, sharded over 16 processes; thorough tier adds coverage-guided atheris/libFuzzer shards that drive the same Hypothesis generators and oracles; oracles are reference "
                      "models, round trips, differential and metamorphic relations"}],
         "checks": checks,
         "notes": "Run as ./check <ID> [--tier quick|thorough] [--replay FILE]; VERIF_SEED selects the generator "
